@@ -24,6 +24,7 @@ CFG = {
     "eioboth": {"features": "cb-std,eio,eioa"},
     # sanitizers
     "asan": {"features": "cb-std,heaptok", "toolchain": "nightly", "rustflags": ASAN_FLAGS, "target": TRIPLE, "runner": "asan"},
+    "lsan": {"features": "cb-std,heaptok", "toolchain": "nightly", "rustflags": LSAN_FLAGS, "target": TRIPLE, "runner": "lsan"},
     "relheap-mc": {"features": "cb-std,heaptok", "profile": "release", "runner": "memcheck", "leak_check": "full", "undef": "yes"},
     "rel-mc": {"features": "cb-std", "profile": "release", "runner": "memcheck", "leak_check": "no", "undef": "yes"},
     "miri": {"features": "cb-std,heaptok", "runner": "miri", "miriflags": "-Zmiri-disable-isolation"},
@@ -344,6 +345,9 @@ with_jobs("C03", lambda tier: [
     S("dbg", "drain", "--n", ns(0, q(tier, 4, 6))),
     S("rel", "drain", "--n", ns(0, q(tier, 4, 6))),
     S("asan", "sweep", "--n", ns(0, q(tier, 3, 5))),
+    S("lsan", "sweep", "--n", ns(0, q(tier, 3, 5)), "--noforget", 1),
+    S("lsan", "ctor", "--n", ns(0, q(tier, 4, 6))),
+    S("lsan", "drain", "--n", ns(0, q(tier, 3, 5))),
     S("asan", "drain", "--n", ns(0, q(tier, 4, 6))),
     S("asan", "iters", "--n", ns(0, q(tier, 3, 5))),
     S("miri", "sweep", "--n", ns(0, q(tier, 2, 3)), "--lean", 1, "--routes", "0,3", "--noforget", 1, "--sample", q(tier, 12, 2)),
@@ -369,6 +373,7 @@ with_jobs("C05", lambda tier: [
 
 with_jobs("C06", lambda tier: [
     S("asan", "faults", "--n", ns(0, q(tier, 3, 5)), "--kinds", "user"),
+    S("lsan", "faults", "--n", ns(0, q(tier, 3, 5)), "--kinds", "user"),
     S("miri", "faults", "--n", ns(0, q(tier, 2, 3)), "--kinds", "user", "--lean", 1, "--routes", "0,3", "--sample", q(tier, 3, 1)),
 ] + ([] if tier == "quick" else [
     S("relheap-mc", "faults", "--n", ns(0, 3), "--kinds", "user", "--lean", 1, "--routes", "0,3"),
